@@ -12,8 +12,8 @@ namespace dsim { extern thread_local int t_bypass; }
 using namespace vh;
 
 namespace {
-enum { O_READ, O_ACQ, O_REL, O_DEREF, O_REPLACE, O_CLEAR, O_SCAN, O_REATTACH, O_BURST };
-const char* const opnames[] = {"read", "acquire", "release", "deref", "replace", "clear", "scan", "reattach", "burst", nullptr};
+enum { O_READ, O_ACQ, O_REL, O_DEREF, O_REPLACE, O_CLEAR, O_SCAN, O_REATTACH, O_BURST, O_FLOOD };
+const char* const opnames[] = {"read", "acquire", "release", "deref", "replace", "clear", "scan", "reattach", "burst", "flood", nullptr};
 
 struct Obj { uint32_t magic; int idx; long payload; };
 enum { LIVE = 0, RETIRED = 1, DISPOSED = 2 };
@@ -147,6 +147,14 @@ template <class GC> void run(Ctx& ctx) {
                     case O_REPLACE: { int c = (int)op.a % ex.ncell; Obj* n = ex.fresh(c, op.b != 0); W->call_inv[sid] = dsim::now_step(); ex.unlink_and_retire(i, c, n); break; }
                     case O_CLEAR: { int c = (int)op.a % ex.ncell; W->call_inv[sid] = dsim::now_step(); ex.unlink_and_retire(i, c, nullptr); break; }
                     case O_BURST: { int c = (int)op.a % ex.ncell; for (long k = 0; k < op.b; k++) { Obj* n = ex.fresh(c, false); W->call_inv[sid] = dsim::now_step(); ex.unlink_and_retire(i, c, n); } break; }
+                    case O_FLOOD: {   // DHP only: fill a whole retired block (256 cells) while most of the objects are guarded, so that the pass frees few of them and the retired array has to grow
+                        int G = (int)op.a, N = (int)op.b; std::vector<Obj*> objs; std::vector<Guard*> gs; std::vector<int> hs;
+                        ++dsim::t_bypass; objs.reserve(N); gs.reserve(G); hs.reserve(G); --dsim::t_bypass;
+                        for (int k = 0; k < N; k++) { Obj* o = ex.fresh(1000 + W->nrec, false); if (!o) break; ++dsim::t_bypass; objs.push_back(o); --dsim::t_bypass; }
+                        for (int k = 0; k < G && k < (int)objs.size(); k++) { Guard* g = new Guard(); g->assign(objs[k]); int h = ex.begin_hold(i, W->find(objs[k])->cell); ex.validated(h, objs[k]); ++dsim::t_bypass; gs.push_back(g); hs.push_back(h); --dsim::t_bypass; }
+                        for (Obj* o : objs) { W->call_inv[sid] = dsim::now_step(); W->find(o)->unlink_step = dsim::now_step(); ex.retire(i, o); }
+                        for (size_t k = 0; k < gs.size(); k++) { Ex<GC>::deref_ok(objs[k], "Guard::assign (flood)", i); ex.releasing(hs[k]); delete gs[k]; ex.ended(hs[k]); }
+                        W->call_inv[sid] = dsim::now_step(); GC::scan(); ctx.probe("flood_ops"); res = N; break; }
                     case O_SCAN: { uint64_t a = dsim::now_step(); W->call_inv[sid] = a; if (op.a) GC::force_dispose(); else GC::scan(); ctx.probe("scan_ops"); ex.check_scan_freed(i, a); break; }
                     case O_REATTACH: { TS& t = ts[i]; if (!t.slot[0] && !t.slot[1]) { W->call_inv[sid] = dsim::now_step(); cds::threading::Manager::detachThread(); ++W->session[i]; cds::threading::Manager::attachThread(); ctx.probe("reattach"); res = 1; } break; }
                     }
@@ -198,6 +206,7 @@ void gen_common(Rng& r, Program& p, int tier, bool hp) {
         bool held[2] = {false, false};
         for (int k = 0; k < nops; k++) {
             int nheld = held[0] + held[1]; int x = r.below(100);
+            if (!hp && nheld == 0 && r.chance(25)) { p.add(t, O_FLOOD, r.range(180, 256), 256 + r.below(64)); continue; }
             if (writer ? x < 55 : x < 15) { if (r.chance(120)) p.add(t, O_CLEAR, r.below(cells)); else if (r.chance(80)) p.add(t, O_BURST, r.below(cells), r.range(2, hp ? 6 : 12)); else p.add(t, O_REPLACE, r.below(cells), odd && r.chance(500)); }
             else if (x < (writer ? 70 : 25)) p.add(t, O_SCAN, r.below(2));
             else if (x < (writer ? 75 : 32) && nheld == 0) p.add(t, O_REATTACH);
